@@ -71,6 +71,9 @@ type pipeCase struct {
 	WaitMs uint `json:"wait_ms,omitempty"`
 	// the configuration carries a system log (what is logged changes nothing)
 	WithLog bool `json:"system_log,omitempty"`
+	// a read timeout in the same configuration (it is applied when the input is opened;
+	// it says nothing about how an end-of-file result is to be treated)
+	ReadTimeoutMs uint `json:"read_timeout_ms,omitempty"`
 }
 
 // chunkReader hands out the input in chunks with pauses, then reports io.EOF.
@@ -272,6 +275,7 @@ func execC09(c *child.Ctx, k pipeCase, cj []byte, traces, pairs map[uint64]struc
 	if k.WithLog {
 		cfg.SystemLog = log.New(io.Discard, "c09 ", log.LstdFlags)
 	}
+	cfg.ReadTimeoutMilliSeconds = k.ReadTimeoutMs
 	core := appcore.New(cfg, channels)
 
 	verifhook.Begin(k.Seed, k.Hook)
@@ -464,7 +468,13 @@ func monC09(c *child.Ctx, replay json.RawMessage) {
 			}
 			k.Consumers = append(k.Consumers, cc)
 		}
-		if real == 0 {
+		if i%31 == 13 {
+			// nobody is listening: a list of one nil entry, of two, an empty list - the
+			// call still reads its source to the end and returns
+			k.Consumers = [][]consumerCfg{{{Nil: true}}, {{Nil: true}, {Nil: true}}, {}}[(i/31)%3]
+			real, slow = 0, false
+			c.Count("runs_without_any_live_consumer", 1)
+		} else if real == 0 {
 			k.Consumers[0].Nil = false
 			real = 1
 		}
@@ -509,6 +519,10 @@ func monC09(c *child.Ctx, replay json.RawMessage) {
 			// a pause after the first end-of-file that is longer than the tolerance
 			k.WaitMs = k.TolMs + uint(r.Range(5, 45))
 			c.Count("runs_with_a_pause_longer_than_the_tolerance", 1)
+		}
+		if i%3 == 2 {
+			k.ReadTimeoutMs = []uint{1, 200, 3000}[r.Intn(3)]
+			c.Count("runs_with_a_read_timeout_configured", 1)
 		}
 		if i%4 == 1 {
 			k.WithLog = true
